@@ -33,6 +33,9 @@ ASSUMPTIONS = [
     "fixed_on_time_steps together with is_always_off, steps outside 0..T-1, interval <= 0 are not generated "
     "(undocumented combinations)",
     "over-specified / period-less schedules: the library may reject them (any exception); accepting them is not judged",
+    "random run scenes only carry detectors with >= 1 active step; detectors without any active step (always-off, "
+    "empty list, window outside the run) are driven by the dedicated zero_active cases (a phasor detector may reject "
+    "such a schedule with its documented 'window sums to 0' error)",
     "a source is required to change the fields at an active step only when its temporal amplitude is known to be "
     "non-zero there (dipoles with a strictly positive sampled signal: every active step; plane sources with the "
     "ramped CW profile: active steps with on-index >= 1)",
@@ -628,7 +631,7 @@ def _judge_rows(r, d, kind, sw, sk, on, t, before, after, fields_after, where, m
             changed = not np.array_equal(a, b)
             if not on[t] and changed:
                 r.violate(f"{mode}: phasor detector {d.name} accumulates at inactive step {t}", wit, sig=(kind, sk, "inactive", mode))
-            elif on[t] and not changed and np.any(fields_after[0][(slice(None),) + tuple(slice(l, h) for (l, h) in d.grid_slice_tuple)] != 0):
+            elif on[t] and not changed and mode == "step-driver" and np.any(fields_after[0][(slice(None),) + tuple(slice(l, h) for (l, h) in d.grid_slice_tuple)] != 0):
                 r.violate(f"{mode}: phasor detector {d.name} does not accumulate at active step {t}", wit, sig=(kind, sk, "active", mode))
             else:
                 r.ok((kind, sk, "active" if on[t] else "inactive", mode))
@@ -661,7 +664,9 @@ def _judge_rows(r, d, kind, sw, sk, on, t, before, after, fields_after, where, m
                     r.violate(f"{mode}: row {idx} of raw field detector {d.name} is not the field of step {t}", wit, sig=(kind, sk, "content", mode))
                     continue
                 r.ok((kind, sk, "content", mode) if region_nonzero else None)
-        if idx not in changed_rows and region_nonzero and kind in ("field_raw", "energy"):
+        # a record may legitimately be zero; "must change" is only demanded where the record is known to be non-zero:
+        # raw field rows (content checked above) and energy rows under the dense random fields of the step driver
+        if idx not in changed_rows and region_nonzero and (kind == "field_raw" or (kind == "energy" and mode == "step-driver")):
             r.violate(f"{mode}: detector {d.name} ({kind}) records nothing at active step {t} (row {idx} unchanged, fields non-zero)", wit, sig=(kind, sk, "active", mode))
             continue
         r.ok((kind, sk, "active", mode) if region_nonzero else None)
